@@ -3,6 +3,7 @@
 include!("/verif/native/gsd_oracles.rs");
 include!("/verif/native/phy_oracles.rs");
 include!("/verif/native/bus_sim.rs");
+include!("/verif/native/c11_hist.rs");
 fn main() {
     let args: Vec<String> = std::env::args().collect();
     if args.len() < 2 {
@@ -38,6 +39,7 @@ fn main() {
         "c07_recover" => profirust::dp::__verif_native_peripheral::c07_recover(&rest, seed),
         #[cfg(rahix_profirust_verif)]
         "c17_iter" => profirust::dp::__verif_native_diagnostics::c17_iter(&rest, seed),
+        "c11_hist" => c11_hist::c11_hist(&rest, seed),
         "bus_sim_c05" => bus_sim::bus_sim_c05(&rest, seed),
         "bus_sim_c13" => bus_sim::bus_sim_c13(&rest, seed),
         "bus_sim_c01" => bus_sim::bus_sim_c01(&rest, seed),
